@@ -92,6 +92,9 @@ int rshell_help(const struct rshell_command *cmdtable, char *ans, int ansmax)
     int len = 0;
     int l;
 
+    if (ansmax <= 0)
+        return 0;
+
     const struct rshell_command *it = cmdtable;
     while (it->func != NULL)
     {
@@ -121,6 +124,9 @@ int rshell_tables_help(const struct rshell_command_table *cmdtables, char *ans,
                        int ansmax)
 {
     int len = 0;
+
+    if (ansmax <= 0)
+        return 0;
 
     const struct rshell_command_table *tit = cmdtables;
     while (tit->table != NULL)
